@@ -160,10 +160,14 @@ def run_case(R, level, op, fault, k, delta, step_seed, prime, err=None, base=1_7
             else:
                 out["request_id"] = resp["request_id"] + delta
             if err:
-                # an ERROR response that does not belong to the request
+                # an ERROR response that does not belong to the request; error-index 0
+                # (tooBig / genErr style), 1, beyond the list or negative, bindings
+                # echoed or absent
+                sel = (step_seed or 0) + k + (err if isinstance(err, int) else 0)
+                vbs = [(o, ("null", None)) for o, _ in req["varbinds"]] if (sel // 4) % 3 else []
                 out["error_status"] = err
-                out["error_index"] = 1
-                out["varbinds"] = [(o, ("null", None)) for o, _ in req["varbinds"]]
+                out["error_index"] = (0, 1, len(vbs) + 2, -1)[sel % 4]
+                out["varbinds"] = vbs
             state["applied"] = True
             return out
         w.agent.pdu_hook = hook
